@@ -43,6 +43,8 @@ def branch_facts(body, target_bb):
         if t['k'] != 'switch' or body.blocks[s]['cleanup']:
             continue
         c = body.canon_op(t['discr'], expand_named=False)
+        if c[0] == 'discr' and isinstance(c[1], tuple) and c[1] and c[1][0] == 'var':
+            c = c[1]        # `match flag_enum { A => .., B => .. }` on a never-reassigned local: a fact about that local like `if flag`
         if c[0] not in ('var', 'param'):
             continue
         l = c[2] if c[0] == 'var' else None
@@ -69,6 +71,8 @@ def prune_for_facts(body, facts):
         if t['k'] != 'switch':
             continue
         c = body.canon_op(t['discr'], expand_named=False)
+        if c[0] == 'discr' and isinstance(c[1], tuple) and c[1] and c[1][0] == 'var':
+            c = c[1]
         if c[0] != 'var' or c[2] not in facts:
             continue
         fact = facts[c[2]]
